@@ -36,7 +36,7 @@ def print_assumptions(c, names):
 
 
 def run(c):
-    c.rule = ("shutdown scenarios against sarama.MockBrokers (producer idle/mid-request/silent/retry+back-off/unreachable/failing with a slow reader; partition "
+    c.rule = ("shutdown scenarios against sarama.MockBrokers (producer idle/mid-request/silent/retry+back-off/unreachable/failing with a slow reader/two retry levels then no leader at the flush; partition "
               "consumer idle/mid-fetch/silent/redispatch/leader loss/siblings on one worker with a leaderless child/slow reader/offset out of range; group join/join+sync retry/"
               "running/rebalance/empty assignment/handler waiting on the session context/no coordinator/silent join; offset manager idle/marking/commit in flight/failing/silent; client "
               "background refresh/held/down/SASL failing after the first connection; broker open/never/refused/SASL handshake or authentication failing/SASL ok) x random parameters (messages, partitions, buffer sizes, "
